@@ -31,7 +31,7 @@ from vt.world import wire
 from vt.vthreading import WouldBlock
 from vt.reqworld import ScriptedRetryPolicy, Observer, response_body
 
-from cassandra.cluster import ExecutionProfile, EXEC_PROFILE_DEFAULT
+from cassandra.cluster import ExecutionProfile, EXEC_PROFILE_DEFAULT, NoHostAvailable
 from cassandra.connection import ConnectionException
 from cassandra.policies import LoadBalancingPolicy, HostDistance, ConvictionPolicy
 from cassandra.pool import NoConnectionsAvailable, HostConnection, HostConnectionPool
@@ -197,6 +197,8 @@ class PoolWorld(object):
             self.timing_out = None
             self.stuck = None
             self.w.close_hooks.append(self._on_close)
+            self._pool_borrow = self.pool.borrow_connection
+            self.pool.borrow_connection = self._borrow      # instance attribute: the pool's own code is untouched
         except BaseException:
             self.close()
             raise
@@ -299,6 +301,38 @@ class PoolWorld(object):
             self.problems.append(('closed-with-live-requests', type(self.pool).__name__,
                                   'connection #%d closed by the pool while %r still await(s) a response' % (conn.vid, live)))
 
+    def _borrow(self, *a, **kw):
+        """What the pool hands out, judged at the moment borrow_connection() returns (engine S: no scheduling
+        point lies between the return and this judgement): never a stream on a connection that was replaced
+        after reaching the orphan threshold and has been closed by the pool."""
+        got = self._pool_borrow(*a, **kw)
+        conn = got[0] if isinstance(got, tuple) else None
+        if conn is not None and not self.legacy and conn.is_closed and not conn.is_defunct and not self.pool.is_shutdown:
+            self.note_state()
+            if conn in self.replaced_conns():
+                self.problems.append(('new-request-on-replaced-connection', 'HostConnection.borrow_connection/closed',
+                                      'borrow_connection returned stream %r of connection #%d, which had been replaced by #%d '
+                                      'and closed' % (got[1], conn.vid, self.pool._connection.vid)))
+        return got
+
+    def fresh_usable(self):
+        """HostConnection: the pool's current connection if it is a replacement of an overloaded connection
+        that has been closed, is open and has free request slots (by the driver's count and by the server's), the pool is in use
+        and the host is up; else None"""
+        if self.legacy or self.pool.is_shutdown or not self.host.is_up or self.session._pools.get(self.host) is not self.pool:
+            return None
+        cur = self.pool._connection
+        if cur is None or cur.is_closed or cur.is_defunct:
+            return None
+        self.note_state()
+        old = self.replaced_conns()
+        if not old or not all(c.is_closed for c in old):
+            return None      # (while a replaced connection is still open the driver lets waiting borrowers wait for its slots)
+        on_wire = sum(1 for q in self.server.pending if q.conn is cur)
+        if cur.in_flight >= cur.max_request_id or on_wire >= cur.max_request_id:
+            return None
+        return cur
+
     def note_state(self):
         """bookkeeping after every event"""
         if not self.legacy:
@@ -327,7 +361,15 @@ class PoolWorld(object):
             f = self.session.execute_async(SimpleStatement('SELECT q%d' % tag))
         except Exception as e:           # noqa
             self.exec_raised.append((tag, type(e).__name__))
-            return
+            return tag
+        if isinstance(f._final_exception, NoHostAvailable):
+            # the request could not be sent at all (judged before anything else runs: attaching the observer takes a lock)
+            cur = self.fresh_usable()
+            if cur is not None:
+                self.problems.append(('request-refused-beside-fresh-connection', 'HostConnection',
+                                      'request q%d was refused (%r) although the overloaded connection had been replaced: the fresh '
+                                      'connection #%d is open with %d of %d slots in use'
+                                      % (tag, f._final_exception.errors, cur.vid, cur.in_flight, cur.max_request_id)))
         self.reqs[tag] = (f, Observer(f, self.w))
         ws = self.wire_of(tag)
         if ws is not None:
@@ -339,6 +381,15 @@ class PoolWorld(object):
                                       'request q%d issued after the pool was shut down was sent on its connection #%d' % (tag, ws[0])))
         for vid in hit_before:
             self.req_after_hit.add(vid)
+        return tag
+
+    def pending_of(self, tag):
+        """the unanswered wire request of request q<tag> on an open connection, or None"""
+        q = 'SELECT q%d' % tag
+        for p in self.open_pending():
+            if p.req.get('query') == q:
+                return p
+        return None
 
     def respond(self, idx):
         self.respond_pending(self.open_pending()[idx])
@@ -725,10 +776,19 @@ def sched_run(params, prefix, part):
     processes the responses), epilogue (events applied single-threaded once the threads are gone, before
     everything outstanding is answered; one that is not possible then is skipped and counted),
     max_fail (connects the worker's environment may refuse; a data choice charged like a preemption),
+    script (thread kind 'script': a list of whole events -- ('req',), ('timeout', k), ('resp', i), ('task', i, mode),
+    ('shutdown',) as in engine E, ('resp-tag', k) = answer request qk, ('resp-mine', j) / ('timeout-mine', j) = answer /
+    give up the j-th request this thread issued itself, ('wait-task',) = wait until an executor task is queued; a second
+    'script' thread takes its events from script2 -- applied one after the other on one thread: the handlers of other threads, in one
+    fixed order, running while a borrower or returner is preempted inside a pool method; an event that is not
+    possible when its turn comes is skipped and counted),
+    drain ('resp' | 'timeout': what comes first when everything outstanding finishes at the end: the answers, or
+    the client-side timeouts followed by late answers),
     shutdown_at_end (a pool that no thread shut down is shut down once the threads are gone, then the
     post-condition is judged as after any other shutdown).
     Scheduling points: every virtual primitive and every source line of the pool class's methods."""
     from vt import sched
+    import functools
     p = dict(params)
     p['loopback'] = True
     p.setdefault('spin_limit', 400)
@@ -741,7 +801,8 @@ def sched_run(params, prefix, part):
         threads = list(p['threads'])
         orphan_tags = set(p.get('orphan_tags', ()))
         answer_tags = set(p['answer_tags']) if p.get('answer_tags') is not None else None
-        ctl = {'active': sum(1 for t in threads if t in ('client', 'shutdown', 'timer')), 'worker': 'worker' not in threads,
+        drain = p.get('drain', 'resp')
+        ctl = {'active': sum(1 for t in threads if t in ('client', 'shutdown', 'timer', 'script')), 'worker': 'worker' not in threads,
                'reactor': 'reactor' not in threads}
         flagged = []
 
@@ -828,11 +889,49 @@ def sched_run(params, prefix, part):
             finally:
                 ctl['active'] -= 1
 
+        def script(events):
+            mine = []
+            try:
+                for ev in events:
+                    ev = tuple(ev)
+                    kind = ev[0]
+                    if kind == 'wait-task':
+                        # until a task is queued (if none ever is, until everybody else has waited much longer than any borrow)
+                        s.block(lambda: bool(st.w.tasks), s.clock_now() + 1000.0, 'script waits for a task')
+                        continue
+                    tag = mine[ev[1]] if kind in ('resp-mine', 'timeout-mine') and ev[1] < len(mine) else None
+                    if kind == 'req':
+                        mine.append(st.issue())
+                    elif kind == 'timeout' and st.timer_of(ev[1]) is not None:
+                        st.timeout(ev[1])
+                    elif kind == 'timeout-mine' and tag is not None and st.timer_of(tag) is not None:
+                        st.timeout(tag)
+                    elif kind == 'resp-mine' and tag is not None and st.pending_of(tag) is not None:
+                        st.respond_pending(st.pending_of(tag))
+                    elif kind == 'resp' and ev[1] < len(st.open_pending()):
+                        st.respond(ev[1])
+                    elif kind == 'resp-tag' and st.pending_of(ev[1]) is not None:
+                        st.respond_pending(st.pending_of(ev[1]))
+                    elif kind == 'task' and ev[1] < len(st.w.tasks):
+                        st.run_task(ev[1], ev[2])
+                    elif kind == 'shutdown':
+                        st.pool.shutdown()
+                    elif kind in ('timeout', 'timeout-mine', 'resp-mine', 'resp', 'resp-tag', 'task'):
+                        st.skipped += 1
+                        part.count('script_events_not_possible')
+                    else:
+                        raise explore.HarnessError('unknown script event %r' % (ev,))
+                    st.note_state()
+            finally:
+                ctl['active'] -= 1
+
         n = {}
         for t in threads:
             n[t] = n.get(t, 0) + 1
             name = '%s%d' % (t, n[t])
-            if t == 'client':
+            if t == 'script':
+                s.spawn(functools.partial(script, list(p.get('script' if n[t] == 1 else 'script%d' % n[t], ()))), name)
+            elif t == 'client':
                 s.spawn(client, name)
             elif t == 'shutdown':
                 s.spawn(shutdown, name)
@@ -882,10 +981,10 @@ def sched_run(params, prefix, part):
             report_invariants()
         if st.pool.is_shutdown:
             report(p, part, data, st.borrow_after_shutdown_findings())
-            report(p, part, data, st.end_findings('resp'))
+            report(p, part, data, st.end_findings(drain))
             part.count('end_states_judged')
         else:
-            st.drain('resp')
+            st.drain(drain)
         st.note_state()
         report_invariants()
         report(p, part, data, st.replacement_findings())
